@@ -54,6 +54,13 @@ theorem roundtrip_ss_links_bytes (cl : Str → Nat) (legacy : Bool) (cs : List L
   exact ss_roundtrip_generic_L (ssSeq {}) (ssDelta legacy)
     (fun s n hs hn => ss_delta_roundtrip C18.ssCfg_covers legacy s n hs hn) cs {} {} wf_default hcs
 
+/-- **ends_reset for hyperlinks** (since the `fix:` for F121): after the whole encoded string no hyperlink is open,
+    whatever links the cells carry — the last OSC 8 written, if any, is the closing `ESC ] 8 ; ; ESC \`. -/
+theorem ends_link_closed (legacy : Bool) (cs : List LCell) :
+    linkOpen false (encodeFromL (encodeDelta legacy) {} {} cs) = false ∧
+    linkOpen false (encodeFromL (ssDelta legacy) {} {} cs) = false :=
+  ⟨linkOpen_encodeFromL (encodeDelta legacy) cs {} {}, linkOpen_encodeFromL (ssDelta legacy) cs {} {}⟩
+
 /-- Without hyperlinks the encoders with links are the encoders of `Props/C18Bytes.lean`. -/
 theorem no_links_same (delta : Style → Style → Str) (cs : List (Cell Str)) :
     ∀ s, encodeFromBL delta s {} (cs.map (fun c => ⟨c, {}⟩)) = encodeFromB delta s cs := by
